@@ -82,7 +82,7 @@ func H_C12_async() {
 }
 
 //verif:witness H_C12_registry bound unbound
-//verif:bound C12 all handle registry through the real Refresh: 1..2 handle names requested (one arbitrary byte each over {a,b,c}), loggers 'a' (sync) and 'b' (async) configured; obtaining a handle twice yields the same handle; Refresh fails iff a requested name is not configured; a bound handle's Write reaches the appenders of the logger of that name, verbatim
+//verif:bound C12 all handle registry through the real Refresh: 1..2 handle names requested (a, b, c or root), loggers 'a' (sync), 'b' (async) and 'root' configured; obtaining a handle twice yields the same handle; Refresh fails iff a requested name is not configured; a bound handle's Write reaches the appenders of the logger of that name, verbatim
 
 func H_C12_registry() {
 	vOpt("loop", 400)
@@ -101,8 +101,11 @@ func H_C12_registry() {
 	allConfigured := true
 	for i := 0; i < nh; i++ {
 		c := vByte("name")
-		vAssume(c == 'a' || c == 'b' || c == 'c')
+		vAssume(c == 'a' || c == 'b' || c == 'c' || c == 'r')
 		names[i] = string([]byte{c})
+		if c == 'r' {
+			names[i] = RootLoggerName // the configured root logger is a named logger like any other
+		}
 		hs[i] = GetLogger(names[i])
 		vAssert(GetLogger(names[i]) == hs[i], "handle-obtained-twice-is-the-same-handle")
 		if c == 'c' {
@@ -121,6 +124,9 @@ func H_C12_registry() {
 		"logger.b.bufferSize":         "100",
 		"logger.b.bufferFullPolicy":   "Block",
 		"logger.b.appenderRef.ref":    "rb",
+		"appender.rr.type":            "Rec",
+		"logger.root.type":            "Logger",
+		"logger.root.appenderRef.ref": "rr",
 	}
 	err := Refresh(cfg)
 	if !allConfigured {
@@ -132,25 +138,36 @@ func H_C12_registry() {
 	if err != nil {
 		return
 	}
-	var ra, rb *vRecAppender
+	var ra, rb, rr *vRecAppender
 	for _, a := range global.appenders {
 		x := a.(*vRecAppender)
-		if x.Name == "ra" {
+		switch x.Name {
+		case "ra":
 			ra = x
-		} else {
+		case "rb":
 			rb = x
+		default:
+			rr = x
 		}
 	}
+	saved := Stdout
+	sink := &vSink{}
+	Stdout = sink
+	defer func() { Stdout = saved }()
 	payload := vBytes("payload", 1+vChoose("plen", 2))
 	want := append([]byte(nil), payload...)
 	n, werr := hs[0].Write(payload)
 	vAssert(n == len(payload) && werr == nil, "write-reports-full-length")
 	Destroy() // flushes the async logger
-	target, other := ra, rb
-	if names[0] == "b" {
-		target, other = rb, ra
+	target := ra
+	switch names[0] {
+	case "b":
+		target = rb
+	case RootLoggerName:
+		target = rr
 	}
-	vAssert(target.writes == 1 && other.writes == 0, "write-reaches-exactly-the-named-loggers-appenders")
+	vAssert(target.writes == 1 && ra.writes+rb.writes+rr.writes == 1 && len(sink.writes) == 0, "write-reaches-exactly-the-named-loggers-appenders")
+	vAssert(rr.started == 1 && rr.stopped == 1, "root-loggers-appender-started-and-stopped")
 	if target.writes == 1 {
 		vAssert(vBytesEqual(target.raw[0], want), "bytes-verbatim")
 	}
